@@ -8,7 +8,7 @@ PROP = {
                 "differ from the M6 model, or the C14 monitor (all-or-nothing, memory = store, references, guards) fails on the history"},
     ],
     "rule": "crud: history of 2-16 ops from a seeded generator that tracks live entities (mostly valid arguments, ~5% dangling ids, invalid "
-            "names/plugins/settings/types, environment ops: status, position, file-provisioned resources), failing store-op index 1-5 on one or "
+            "names/plugins/settings/types, environment ops: status, FAILED status write followed by mutating calls, position, file-provisioned resources), failing store-op index 1-5 on one or "
             "several API ops; non-trivial = a store failure was hit or a running / file-provisioned guard refused; distinct = distinct case lines",
     "strength": "all-or-nothing: every op, argument, failing index, outside the F7 triggers (explicit table, shrinking with each repair); "
                 "guards and memory=store-on-success: full; references: invariant assumed per step (Inv), preservation not yet proved",
